@@ -6,6 +6,8 @@
 //    and compared with its snapshot from before the step.
 // M: the projected result of every step and the final observation of every pool value are compared with
 //    the slice-level model (coq/Model/Heap.v, Coll.v) by vm_compute.
+// Results that are TYPES (the type returned by an inference is a value obtained earlier): infer.go, infergen.go;
+// their model is coq/Model/InferHeap.v, their cases go to cases_infer.v.
 package main
 
 import (
@@ -144,7 +146,8 @@ func main() {
 	res := lib.NewResult("C08")
 	res.Rule = "a history (pool of values, each step applies a List/OrderedMap operation to any earlier value or result; every live " +
 		"value is re-observed after every step) is non-trivial when some receiver is used by two steps or a step works on the " +
-		"result of an earlier operation; distinct = distinct operation sequences"
+		"result of an earlier operation; a type history (pool of values and types; steps build values, infer types, take common types) is " +
+		"non-trivial when some entry is used by two steps; distinct = distinct operation sequences"
 	r := &runner{cfg: cfg, res: res, cf: newCases()}
 	tr := &trunner{runner: r, tcf: newTCases()}
 	if cfg.Replay != "" {
